@@ -63,6 +63,8 @@ take place; distinct = distinct hash of (program, source, mode, layout).",
             "probe.read_through_chain",
             "probe.mutable_variable_reassigned",
             "probe.effectful_value_read_again",
+            "probe.definition_through_local_or_loop_scope",
+            "probe.tree_with_zero_width_node_and_inherit",
             "probe.layout.descending",
             "probe.layout.scatter",
             "probe.layout.reuse",
@@ -95,6 +97,10 @@ enum Stz {
     DefTag { query: String, name: String, mutable: bool },
     /// strict only: `set @y.NAME = "M:" TAG(@y)` — needs an own, mutable definition on @y
     Mutate { query: String, name: String },
+    /// `let al = @x  let al.NAME = TAG(al)`: the scope is a local holding the node
+    DefAlias { query: String, name: String },
+    /// `for y in @ys { let y.NAME = TAG(y) }`: the scope is a loop variable
+    DefElems { query: String, name: String },
     /// `let @x.NAME = (node)`: the value has an effect (a graph node) and must be computed once
     DefNode { query: String, name: String },
     /// `attr (@y.NAME) r<idx> = TAG(@y)`: annotates the shared graph node through another route
@@ -150,6 +156,8 @@ const DEF_LOOP_QUERIES: &[&str] = &[
 ];
 
 const READ_DIRECT: &[&str] = &[
+    "(block) @y",
+    "(_ (_) @y)",
     "(identifier) @y",
     "(call) @y",
     "(integer) @y",
@@ -300,6 +308,10 @@ fn gen_schema(r: &mut Rng, lazy: bool) -> Schema {
             for _ in 0..n {
                 if r.chance(1, 5) {
                     s.stanzas.push(Stz::DefInLoop { query: (*r.pick(DEF_LOOP_QUERIES)).into(), name: name.clone() });
+                } else if r.chance(1, 4) {
+                    s.stanzas.push(Stz::DefAlias { query: (*r.pick(DEF_QUERIES)).into(), name: name.clone() });
+                } else if r.chance(1, 5) {
+                    s.stanzas.push(Stz::DefElems { query: (*r.pick(READ_LIST)).into(), name: name.clone() });
                 } else {
                     s.stanzas.push(Stz::DefTag { query: (*r.pick(DEF_QUERIES)).into(), name: name.clone(), mutable: false });
                 }
@@ -314,7 +326,15 @@ fn gen_schema(r: &mut Rng, lazy: bool) -> Schema {
         }
         _ => {
             // wildcard definer over all children of module, read through the list route
-            s.stanzas.push(Stz::DefTag { query: "(module (_) @x)".into(), name: name.clone(), mutable: false });
+            if r.chance(1, 3) {
+                s.stanzas.push(Stz::DefElems { query: "(module (_)* @ys)".into(), name: name.clone() });
+            } else {
+                s.stanzas.push(Stz::DefTag { query: "(module (_) @x)".into(), name: name.clone(), mutable: false });
+            }
+            if r.chance(1, 4) {
+                // a second definition of the same nodes through another kind of scope: a duplicate
+                s.stanzas.push(Stz::DefAlias { query: "(module (_) @x)".into(), name: name.clone() });
+            }
             s.stanzas.push(Stz::ReadList { query: "(module (_)* @ys)".into(), name: name.clone() });
             if r.chance(1, 2) {
                 s.stanzas.push(Stz::DefTag { query: "(argument_list (_) @x)".into(), name: name.clone(), mutable: false });
@@ -340,6 +360,18 @@ fn render(s: &Schema, order: &[usize]) -> String {
                 if *mutable { "var" } else { "let" },
                 name,
                 tag_expr("@x")
+            )),
+            Stz::DefAlias { query, name } => out.push_str(&format!(
+                "{}\n{{\n  let al = @x\n  let al.{} = {}\n}}\n\n",
+                query,
+                name,
+                tag_expr("al")
+            )),
+            Stz::DefElems { query, name } => out.push_str(&format!(
+                "{}\n{{\n  for y in @ys {{\n    let y.{} = {}\n  }}\n}}\n\n",
+                query,
+                name,
+                tag_expr("y")
             )),
             Stz::DefNode { query, name } => out.push_str(&format!(
                 "{}\n{{\n  let @x.{} = (node)\n}}\n\n",
@@ -421,6 +453,7 @@ struct Expected {
     chain_reads: usize,
     mutations: usize,
     shared_reads: usize,
+    noncapture_scope_defs: usize,
     /// graph nodes created by `(node)` definitions: their attribute maps, sorted
     shared: Vec<BTreeMap<String, String>>,
 }
@@ -516,6 +549,30 @@ fn model(s: &Schema, order: &[usize], lazy: bool, tree: &Tree, source: &str) -> 
                                 }
                                 mutable_defs.insert((name.clone(), n.id()));
                             }
+                            if tags.entry(name.clone()).or_default().insert(n.id(), tag_of(&n)).is_some() {
+                                e.fails = true;
+                                e.why = format!("{} defined twice on {}", name, tag_of(&n));
+                            }
+                        }
+                    }
+                }
+                Stz::DefAlias { query, name } if do_defs => {
+                    for m in matches(query, "x", tree, source)? {
+                        for n in m {
+                            e.definitions += 1;
+                            e.noncapture_scope_defs += 1;
+                            if tags.entry(name.clone()).or_default().insert(n.id(), tag_of(&n)).is_some() {
+                                e.fails = true;
+                                e.why = format!("{} defined twice on {}", name, tag_of(&n));
+                            }
+                        }
+                    }
+                }
+                Stz::DefElems { query, name } if do_defs => {
+                    for m in matches(query, "ys", tree, source)? {
+                        for n in m {
+                            e.definitions += 1;
+                            e.noncapture_scope_defs += 1;
                             if tags.entry(name.clone()).or_default().insert(n.id(), tag_of(&n)).is_some() {
                                 e.fails = true;
                                 e.why = format!("{} defined twice on {}", name, tag_of(&n));
@@ -650,6 +707,8 @@ fn schema_to_json(s: &Schema) -> J {
             Stz::DefTag { query, name, mutable } => json!({"k": "deftag", "query": query, "name": name, "mutable": mutable}),
             Stz::Mutate { query, name } => json!({"k": "mutate", "query": query, "name": name}),
             Stz::DefNode { query, name } => json!({"k": "defnode", "query": query, "name": name}),
+            Stz::DefAlias { query, name } => json!({"k": "defalias", "query": query, "name": name}),
+            Stz::DefElems { query, name } => json!({"k": "defelems", "query": query, "name": name}),
             Stz::ReadNode { query, name } => json!({"k": "readnode", "query": query, "name": name}),
             Stz::DefLink { query, name } => json!({"k": "deflink", "query": query, "name": name}),
             Stz::DefInLoop { query, name } => json!({"k": "defloop", "query": query, "name": name}),
@@ -678,6 +737,8 @@ fn schema_from_json(j: &J) -> Schema {
                         "deftag" => Stz::DefTag { query: g(x, "query"), name: g(x, "name"), mutable: x["mutable"].as_bool().unwrap_or(false) },
                         "mutate" => Stz::Mutate { query: g(x, "query"), name: g(x, "name") },
                         "defnode" => Stz::DefNode { query: g(x, "query"), name: g(x, "name") },
+                        "defalias" => Stz::DefAlias { query: g(x, "query"), name: g(x, "name") },
+                        "defelems" => Stz::DefElems { query: g(x, "query"), name: g(x, "name") },
                         "readnode" => Stz::ReadNode { query: g(x, "query"), name: g(x, "name") },
                         "deflink" => Stz::DefLink { query: g(x, "query"), name: g(x, "name") },
                         "defloop" => Stz::DefInLoop { query: g(x, "query"), name: g(x, "name") },
@@ -703,6 +764,8 @@ pub struct Stats {
     pub chain_reads: usize,
     pub mutations: usize,
     pub shared_reads: usize,
+    pub zero_width_nodes: usize,
+    pub noncapture_scope_defs: usize,
     pub outcome: &'static str,
     pub leaked: i64,
     pub transcript: u64,
@@ -722,6 +785,7 @@ fn check_case(case: &Case) -> Result<(Stats, Option<Found>), String> {
         None => schema_from_json(&case.schema_json),
     };
     let tree = simrun::parse_python(&case.source);
+    st.zero_width_nodes = alloc::all_nodes_zero_width(&tree);
     let (n, coll) = alloc::id_collisions(&tree);
     st.nodes = n;
     st.collisions = coll;
@@ -734,6 +798,7 @@ fn check_case(case: &Case) -> Result<(Stats, Option<Found>), String> {
     st.chain_reads = exp.chain_reads;
     st.mutations = exp.mutations;
     st.shared_reads = exp.shared_reads;
+    st.noncapture_scope_defs = exp.noncapture_scope_defs;
     let file = simrun::load(&case.text).map_err(|e| format!("schema program rejected: {}\n{}", e, case.text))?;
     let fns = simrun::functions();
     let vars = simrun::make_variables(&Vec::new(), &[]);
@@ -857,7 +922,7 @@ pub fn make_case(ctx: &ShardCtx, i: u64) -> Case {
     } else {
         // strict needs definers first
         order.sort_by_key(|i| match schema.stanzas[*i] {
-            Stz::DefTag { .. } | Stz::DefLink { .. } | Stz::DefInLoop { .. } | Stz::DefNode { .. } => 0,
+            Stz::DefTag { .. } | Stz::DefLink { .. } | Stz::DefInLoop { .. } | Stz::DefNode { .. } | Stz::DefAlias { .. } | Stz::DefElems { .. } => 0,
             Stz::Mutate { .. } => 1,
             _ => 2,
         });
@@ -865,6 +930,8 @@ pub fn make_case(ctx: &ShardCtx, i: u64) -> Case {
     let scfg = pysrc::SrcCfg {
         min_stmts: 2,
         max_stmts: if ctx.tier == Tier::Quick { 30 } else { 120 },
+        empty_blocks: r.chance(1, 2),
+        syntax_errors: if r.chance(1, 6) { 1 } else { 0 },
         ..Default::default()
     };
     let source = pysrc::gen_source(&mut Rng::sub(seed, "src"), &scfg);
@@ -1022,6 +1089,10 @@ pub fn run_shard(ctx: &ShardCtx, rep: &mut Report) {
             rep.add("probe.mutable_variable_reassigned", st.mutations as u64);
             rep.add("probe.effectful_value_read_again", st.shared_reads as u64);
         }
+        rep.add("probe.definition_through_local_or_loop_scope", st.noncapture_scope_defs as u64);
+        if st.zero_width_nodes > 0 && st.inherited_reads > 0 {
+            rep.count("probe.tree_with_zero_width_node_and_inherit");
+        }
         let defs_first = case.order.iter().map(|i| match case_stanza_is_def(&case, *i) { true => 0, false => 1 }).collect::<Vec<_>>();
         if !case.lazy && defs_first.windows(2).any(|w| w[0] > w[1]) && !st.expected_fail && st.inherited_reads > 0 {
             rep.count("probe.strict_read_between_definitions");
@@ -1078,7 +1149,7 @@ pub fn run_shard(ctx: &ShardCtx, rep: &mut Report) {
 fn case_stanza_is_def(c: &Case, i: usize) -> bool {
     c.schema
         .as_ref()
-        .map(|s| matches!(s.stanzas[i], Stz::DefTag { .. } | Stz::DefLink { .. } | Stz::DefInLoop { .. } | Stz::DefNode { .. }))
+        .map(|s| matches!(s.stanzas[i], Stz::DefTag { .. } | Stz::DefLink { .. } | Stz::DefInLoop { .. } | Stz::DefNode { .. } | Stz::DefAlias { .. } | Stz::DefElems { .. }))
         .unwrap_or(false)
 }
 
